@@ -6,7 +6,7 @@ import numpy as np
 from vlib import clock, graphs as G, gens, oracles
 from vlib.base import import_dsw, derive_seed, jdump
 from vlib.coding import monitored, encode_budget, table_of, rand_table_spec, is_strand
-from props.C11 import make_user_filter
+from props.C11 import make_user_filter, asym_filter
 from props.C12 import ref_valid
 
 ID = "C02"
@@ -71,7 +71,18 @@ def generate(ctx):
             spec = dict(kind="user", spec=dict(pred=rng.choice(preds), seed=rng.getrandbits(30), p=rng.choice([0.05, 0.15, 0.3]),
                                                w=rng.randint(1, k), bias=rng.choice([0.0, 0.1, 0.25, 0.34]), ret="bool",
                                                style="documented"))
+        if rng.random() < 0.12 and k >= 2:
+            spec = dict(kind="asym", cfg=dict(k=k, run=rng.choice([None, min(2, k), min(3, k)]), gc=rng.choice([None, [0.25, 0.75], [0.0, 1.0]]), motifs=None),
+                        banned=[rng.choice(["GGG", "GG", "AC", "TTG", "CAT", "TC"])[:k]])
         yield "pipeline", dict(k=k, t=rng.choice([1, 1, 2, 2, 3, 4]), filter=spec, n_msgs=ctx.pick(5, 8))
+    for _ in range(ctx.pick(25, 250)):   # G2: one filter object, tightened between two runs of the pipeline
+        k = rng.choice([2, 3, 3, 4])
+        yield "filter_sequence", dict(k=k, t=rng.choice([1, 2]), run0=rng.choice([None, k - 1 if k > 2 else None]), run1=rng.choice([1, 2]) if k > 2 else 1,
+                                      motif=gens.random_dna(rng, rng.randint(1, k)), gc=rng.choice([None, [0.25, 0.75], [0.0, 1.0]]))
+    if ctx.shard < ctx.pick(6, 32):      # long payloads: strands beyond 1000 nt, judged by the whole-sequence check as well
+        k = rng.choice([3, 4, 5])
+        spec = dict(kind="local", cfg=dict(k=k, run=rng.choice([None, k - 1]), gc=rng.choice([[0.25, 0.75], [0.4, 0.6], [0.2, 0.8]]), motifs=None))
+        yield "pipeline", dict(k=k, t=rng.choice([1, 2]), filter=spec, n_msgs=1, long=True)
 
 
 def check_ctor(ctx, case):
@@ -94,6 +105,9 @@ def check_ctor(ctx, case):
 
 
 def _filter(dsw, spec, k):
+    if spec["kind"] == "asym":
+        f = asym_filter(dsw, k, spec["cfg"], spec["banned"])
+        return f, None
     if spec["kind"] == "local":
         c = spec["cfg"]
         return dsw.LocalBioFilter(observed_length=k, max_homopolymer_runs=c["run"], gc_range=c["gc"], undesired_motifs=c["motifs"]), None
@@ -127,9 +141,11 @@ def check_pipeline(ctx, case):
     excluded = int(np.asarray(mask).astype(bool).sum()) < 4 ** k
     no3 = not bool((G.out_degrees(acc) == 3).any())
     starts = live if k <= 2 else rng.sample(live, min(len(live), 4))
+    if case.get("long"):
+        starts = starts[:2]
     for start in starts:
         for _ in range(case["n_msgs"]):
-            bits, mclass = gens.message(rng, 80)
+            bits, mclass = gens.message(rng, 80) if not case.get("long") else gens.message(rng, 8, "long")
             fast = no3 and rng.random() < 0.35
             tspec = rand_table_spec(rng, 0.5)
             _one(ctx, dsw, case, f, spec, acc, k, t, int(start), bits, fast, tspec, excluded)
@@ -147,7 +163,8 @@ def _one(ctx, dsw, case, f, spec, acc, k, t, start, bits, fast, tspec, excluded)
         return
     strand = out.value
     full = G.kmer(start, k) + strand
-    local = spec["kind"] == "local"
+    local = spec["kind"] in ("local",)
+    asym = spec["kind"] == "asym"
     for i in range(len(full) - k + 1):
         w = full[i:i + k]
         ok = bool(f.valid(w))
@@ -168,18 +185,59 @@ def _one(ctx, dsw, case, f, spec, acc, k, t, start, bits, fast, tspec, excluded)
             ctx.cls("whole-sequence|checked")
         else:
             ctx.cls("whole-sequence|not window-decidable (not demanded)")
-    elif spec["spec"]["pred"] == "doc-gc" and spec["spec"]["w"] <= k:
+    elif not asym and spec["spec"]["pred"] == "doc-gc" and spec["spec"]["w"] <= k:
         for name, s in (("strand", strand), ("start k-mer + strand", full)):
             if not bool(f.valid(s)):
                 ctx.fail("whole-sequence-check-fails", "documented GC filter: valid(%s = %r) is False; %s" % (name, s, where), "strand", sub)
         ctx.cls("whole-sequence|checked")
-    ctx.cls("filter|" + ("local" if local else "user:" + spec["spec"]["pred"]))
+    if asym:
+        c = spec["cfg"]
+        if (c["run"] is None or c["run"] < k) and all(len(w) <= k for w in spec["banned"]):
+            for name, s in (("strand", strand), ("start k-mer + strand", full)):
+                if not bool(f.valid(s, only_last=False)):
+                    ctx.fail("whole-sequence-check-fails", "subclassed filter: valid(%s = %r, only_last=False) is False; %s" % (name, s, where), "strand", sub)
+            ctx.cls("whole-sequence|checked")
+    ctx.cls("filter|" + ("local" if local else "asym-subclass" if asym else "user:" + spec["spec"]["pred"]))
     ctx.cls("t|%d" % t)
     ctx.cls("mode|" + ("fast" if fast else "normal"))
     ctx.cls("table|" + ("on" if tspec else "off"))
     ctx.cls("k|%d" % k)
     ctx.obs("max_strand_length", len(strand))
     ctx.done("strand", sub, excluded and len(strand) >= k)
+
+
+def check_filter_sequence(ctx, case):
+    """G2: the same filter object is tightened in place between two runs of find_vertices -> connect_coding_graph ->
+    encode; the strands of the second run must satisfy the filter as it is *then*."""
+    dsw = import_dsw()
+    k, t = case["k"], case["t"]
+    rng = random.Random(derive_seed(ctx.seed, jdump(case)))
+    f = dsw.LocalBioFilter(observed_length=k, max_homopolymer_runs=case["run0"], gc_range=case["gc"], undesired_motifs=[])
+    for stage in range(3):
+        try:
+            mask = dsw.find_vertices(k, f)
+            acc = np.asarray(dsw.connect_coding_graph(k, mask, t)[1])
+        except ValueError:
+            acc = None
+        if acc is not None and (acc >= 0).any():
+            live = G.live_vertices(acc)
+            for start in rng.sample(live, min(len(live), 3)):
+                bits = gens.message(rng, 60)[0]
+                out = monitored(dsw.encode, encode_budget(len(bits), len(live)), np.array(bits, dtype=int), acc, int(start))
+                if out.kind == "ok" and is_strand(out.value):
+                    full = G.kmer(int(start), k) + out.value
+                    for i in range(len(full) - k + 1):
+                        if not bool(f.valid(full[i:i + k])):
+                            ctx.fail("window-rejected-by-filter", "stage %d (filter object edited in place: run limit %s, motifs %s): window %r of %s is rejected by the filter as it is now" % (
+                                stage, f.max_homopolymer_runs, f.undesired_motifs, full[i:i + k], full), "filter_sequence", case)
+                            return
+                    ctx.evaluations += 1
+        if stage == 0:
+            f.max_homopolymer_runs = case["run1"]
+        elif stage == 1:
+            f.undesired_motifs.append(case["motif"])
+    ctx.cls("pipeline re-run after the filter object was edited")
+    ctx.done("filter_sequence", case, True)
 
 
 def check_strand(ctx, case):
@@ -190,7 +248,7 @@ def check_strand(ctx, case):
     _one(ctx, dsw, case, f, case["filter"], acc, case["k"], case["t"], case["start"], case["bits"], case["fast"], case["table"], True)
 
 
-CHECKS = {"ctor": check_ctor, "pipeline": check_pipeline, "strand": check_strand}
+CHECKS = {"ctor": check_ctor, "pipeline": check_pipeline, "strand": check_strand, "filter_sequence": check_filter_sequence}
 
 
 def floors(agg, tier):
@@ -198,7 +256,8 @@ def floors(agg, tier):
     c = agg["classes"]
     for name, need in (("ctor|accepted", 100), ("ctor|rejected", 100), ("filter|local", 1000), ("filter|user:forbidden", 100),
                        ("filter|user:doc-gc", 100), ("whole-sequence|checked", 1000), ("mode|fast", 200), ("table|on", 500),
-                       ("t|1", 200), ("t|2", 200), ("t|3", 30)):
+                       ("t|1", 200), ("t|2", 200), ("t|3", 30),
+                       ("filter|asym-subclass", 100), ("pipeline re-run after the filter object was edited", 100)):
         if c.get(name, 0) < need:
             out.append("%s observed %d < %d" % (name, c.get(name, 0), need))
     return out
